@@ -393,7 +393,8 @@ def run(sh, spec):
             for reuse in (False, True):
                 run_history(sh, env, idx, reuse, refs)
                 sh.case((idx, reuse), nontrivial(idx))
-        sh.sample({"kind": "history", "lines": [LINES[7], LINES[12], LINES[0]]})
+                if nontrivial(idx) and not sh.samples:
+                    sh.sample({"kind": "history", "lines": [LINES[i2] for i2 in idx], "reuse_raw_args": reuse})
     elif part == "hist-sample":
         for _ in range(spec["n"]):
             idx = tuple(sh.rng.randrange(len(LINES)) for _ in range(spec["k"]))
